@@ -132,6 +132,12 @@ func (fr *Frame) libCall(i *ssa.Call, callee *ssa.Function, args []Val, st *Stat
 	case "strconv.ParseFloat":
 		use("STR: strconv.ParseFloat as uninterpreted functions of its argument")
 		fr.regs[i] = Tuple{TV{T: mk(SF64, "pf_val", ts(0))}, TV{T: mk(SErr, "pf_err", ts(0))}}
+	case "math.IsNaN":
+		use("F64: math.IsNaN / math.IsInf as uninterpreted predicates of their argument")
+		fr.regs[i] = TV{T: mk(SBool, "f64_isnan", ts(0))}
+	case "math.IsInf":
+		use("F64: math.IsNaN / math.IsInf as uninterpreted predicates of their argument")
+		fr.regs[i] = TV{T: mk(SBool, "f64_isinf", ts(0), ts(1))}
 	case "errors.New":
 		fr.regs[i] = TV{T: mk(SErr, "SomeErr", x.fresh("errid", SInt))}
 	case "fmt.Errorf":
